@@ -1,7 +1,7 @@
 """C09 – tail calls run in constant space at any iteration count.
 Every loop shape from: call kind (self / mutual 2,3 / via local variable / via parameter / via apply / via a global assigned with
 set!) x tail context (if, cond, case, and, or, when, unless, begin, let depth 1..3, let*, letrec, inner named let, internal define,
-handler tail) x parameter list (1, 2, 4 fixed, rest) x extras (none, captured variable, assigned captured variable, live temporary).
+handler tail, and the tail call placed after a sibling branch that is a sequence: begin / multi-expression cond clause / let body / when) x parameter list (1, 2, 4 fixed, rest) x extras (none, captured variable, assigned captured variable, live temporary).
 Oracle: at every iteration the (operand stack, frame stack, native depth) triple observed at each call site equals the one of the
 first visit of that site; the result equals the closed form; peak RSS of a 10^6-iteration run stays within a fixed margin of the
 10^3 run; non-tail recursion of depth 10^6 ends with an error value (or a result), never with a crash."""
@@ -29,6 +29,10 @@ CTX = [
     ("let*", "(let* ((t1 i) (t2 (+ t1 0))) {E})"), ("letrec", "(letrec ((hh (lambda (x) x))) {E})"),
     ("inner-loop", "(let inner ((j 0)) (if (< j 1) (inner (+ j 1)) {E}))"), ("internal-define", "(let () (define z 1) {E})"),
     ("if-nested", "(if (< i 0) 0 (if (= i -1) 0 {E}))"),
+    # the tail call comes AFTER a sibling branch that is a sequence (tail-position bookkeeping must be restored when the sequence ends)
+    ("if-sibling-begin", "(if (< i 0) (begin 0 1) {E})"), ("cond-sibling-seq", "(cond ((< i 0) 0 1) ((= i -1) 2 3) (else {E}))"),
+    ("if-sibling-let-seq", "(if (< i 0) (let ((q 1)) 0 q) {E})"), ("if-sibling-when", "(if (< i 0) (when #t 0 1) {E})"),
+    ("begin-after-inner-seq", "(begin (if (< i 0) (begin 0 1) 0) {E})"),
 ]
 # parameter lists: (params text, how to pass the extra args in the recursive call, initial extra args)
 PARAMS = [
